@@ -270,47 +270,76 @@ func runC18(c c18Case, o *vfutil.Obs) *vfutil.Failure {
 			return vfutil.Failf("harness/unblock", "%v", err)
 		}
 	}
-	// ---- ground truth: the committed Raft log. The server commits operations of
-	// its own (expired group members), so the log is read twice: every operation
-	// in the first reading must have an event once the dispatcher has passed it,
-	// and every event must have an operation in a reading taken after the events.
-	readTruth := func() (map[uint64]string, []uint64) {
-		rn := l.s.getRaft()
-		first, _ := rn.store.FirstIndex()
-		last, _ := rn.store.LastIndex()
-		truth := map[uint64]string{}
-		var idx []uint64
-		for i := first; i <= last && i > 0; i++ {
-			lg := new(raft.Log)
-			if err := rn.store.GetLog(i, lg); err != nil || lg.Type != raft.LogCommand {
-				continue
-			}
-			rl := new(proto.RaftLog)
-			if rl.Unmarshal(lg.Data) != nil {
-				continue
-			}
-			if d := c18DescribeOp(rl); d != "" {
-				truth[i] = d
-				idx = append(idx, i)
-			}
-		}
-		return truth, idx
+	if f := c18Judge(hist, func() *Server { return l.s }, func() *Server { return l.s }, 45*time.Second, o); f != nil {
+		return f
 	}
-	truth, truthIdx := readTruth()
+	if retried {
+		o.NonTrivial()
+		o.Label("retry-or-resume")
+	}
+	return nil
+}
+
+// c18ReadTruth lists the event-producing operations in a server's Raft log.
+func c18ReadTruth(s *Server) (map[uint64]string, []uint64) {
+	rn := s.getRaft()
+	first, _ := rn.store.FirstIndex()
+	last, _ := rn.store.LastIndex()
+	truth := map[uint64]string{}
+	var idx []uint64
+	for i := first; i <= last && i > 0; i++ {
+		lg := new(raft.Log)
+		if err := rn.store.GetLog(i, lg); err != nil || lg.Type != raft.LogCommand {
+			continue
+		}
+		rl := new(proto.RaftLog)
+		if rl.Unmarshal(lg.Data) != nil {
+			continue
+		}
+		if d := c18DescribeOp(rl); d != "" {
+			truth[i] = d
+			idx = append(idx, i)
+		}
+	}
+	return truth, idx
+}
+
+// c18Judge compares the activity stream with the committed Raft log.
+// controller() returns the current metadata leader, activityLeader() the
+// server leading the activity partition. The server commits operations of its
+// own (expired group members), so the log is read twice: every operation in the
+// first reading must have an event once the dispatcher has passed it, and every
+// event must have an operation in a reading taken after the events.
+func c18Judge(hist []string, controller, activityLeader func() *Server, wait time.Duration, o *vfutil.Obs) *vfutil.Failure {
+	ctl := controller()
+	if ctl == nil {
+		return vfutil.Failf("harness/leader", "no metadata leader; history %v", hist)
+	}
+	truth, truthIdx := c18ReadTruth(ctl)
 	if len(truthIdx) == 0 {
 		return nil
 	}
 	lastTruth := truthIdx[len(truthIdx)-1]
 	// ---- bounded liveness: the dispatcher catches up (back-off is at most 10 s)
-	deadline := time.Now().Add(45 * time.Second)
-	for l.s.activity.LastPublishedRaftIndex() < lastTruth && time.Now().Before(deadline) {
+	deadline := time.Now().Add(wait)
+	published := func() uint64 {
+		if c := controller(); c != nil {
+			ctl = c
+		}
+		return ctl.activity.LastPublishedRaftIndex()
+	}
+	for published() < lastTruth && time.Now().Before(deadline) {
 		time.Sleep(5 * time.Millisecond)
 	}
-	if got := l.s.activity.LastPublishedRaftIndex(); got < lastTruth {
-		return vfutil.Failf("C18/event-never-published/bounded-liveness(45s)", "history %v: operation %d (%s) was committed but the activity dispatcher only reached index %d", hist, lastTruth, truth[lastTruth], got)
+	if got := published(); got < lastTruth {
+		return vfutil.Failf(fmt.Sprintf("C18/event-never-published/bounded-liveness(%v)", wait), "history %v: operation %d (%s) was committed but the activity dispatcher only reached index %d", hist, lastTruth, truth[lastTruth], got)
 	}
 	// ---- read the activity stream
-	p := l.s.metadata.GetPartition(activityStream, 0)
+	al := activityLeader()
+	if al == nil {
+		return vfutil.Failf("harness/activity", "no activity partition leader; history %v", hist)
+	}
+	p := al.metadata.GetPartition(activityStream, 0)
 	if p == nil {
 		return vfutil.Failf("harness/activity", "no activity partition")
 	}
@@ -323,7 +352,7 @@ func runC18(c c18Case, o *vfutil.Obs) *vfutil.Failure {
 		events = append(events, e)
 	}
 	truth1 := truth
-	truth, _ = readTruth()
+	truth, _ = c18ReadTruth(ctl)
 	seen := map[uint64]string{}
 	var maxID uint64
 	var ids []uint64
@@ -358,10 +387,6 @@ func runC18(c c18Case, o *vfutil.Obs) *vfutil.Failure {
 	}
 	o.Count("operations", len(truthIdx))
 	o.Count("events", len(events))
-	if retried {
-		o.NonTrivial()
-		o.Label("retry-or-resume")
-	}
 	return nil
 }
 
